@@ -3,7 +3,7 @@
     refuted in Coq; the denotation clauses are decided by evaluating [den] on
     the implementation's observed results.  Only statements. *)
 Require Import AT.Model.Base AT.Model.Rose AT.Model.Nav AT.Model.Resolver AT.Spec.ResolverSpec.
-Require AT.Proofs.GlobProofs AT.Proofs.GlobDen.
+Require AT.Proofs.GlobProofs AT.Proofs.GlobDen AT.Proofs.GlobOrder AT.Proofs.IterOrder.
 Import AT.Proofs.GlobProofs.
 
 (** within one name: the regex the code compiles from a pattern (table, (?ms)
@@ -61,12 +61,24 @@ Theorem C08_relaxed_den : forall nm ic t comps p x,
 Proof. exact AT.Proofs.GlobDen.relaxed_den. Qed.
 Print Assumptions C08_relaxed_den.
 
-(** Kept visible, not proved: pre-order of the relaxed result without '**'/'..',
-    and absence of duplicates unless a '..' follows a name (decided on observed
-    results by Corr/C08.v). *)
-Definition C08_relaxed_order_full : Prop :=
-  forall nm ic t comps p, Forall (fun c => str_eqb c s_dotdot = false /\ str_eqb c s_starstar = false) comps ->
-    NoDup (AT.Proofs.GlobDen.gl nm ic t comps p).
+(** in tree pre-order when the pattern contains neither '**' nor '..': the
+    result is a subsequence of the pre-order of the start node's subtree (which
+    is duplicate-free) *)
+Theorem C08_relaxed_preorder : forall nm ic t comps, AT.Proofs.GlobOrder.plain comps = true -> forall p,
+  AT.Proofs.IterOrder.Subseq (AT.Proofs.GlobDen.gl nm ic t comps p) (pre_positions t p).
+Proof. exact AT.Proofs.GlobOrder.relaxed_preorder. Qed.
+Print Assumptions C08_relaxed_preorder.
+Theorem C08_preorder_nodup : forall t p, NoDup (pre_positions t p).
+Proof. exact AT.Proofs.GlobOrder.PP_nodup. Qed.
+Print Assumptions C08_preorder_nodup.
+(** without duplicates whenever no '..' follows a name or wildcard component
+    (a '**' component de-duplicates whatever follows it) *)
+Theorem C08_relaxed_nodup : forall nm ic t comps p,
+  (forall pre c post, comps = pre ++ c :: post -> AT.Proofs.GlobOrder.is_namecomp c = true ->
+                      AT.Proofs.GlobOrder.nodd post = true) ->
+  NoDup (AT.Proofs.GlobDen.gl nm ic t comps p).
+Proof. intros nm ic t comps p H. apply AT.Proofs.GlobOrder.relaxed_nodup. apply AT.Proofs.GlobOrder.guard_of_statement. exact H. Qed.
+Print Assumptions C08_relaxed_nodup.
 
 Example C08_example :
   let t := T 0 [T 1 [T 3 []]; T 2 []] in
